@@ -4,10 +4,11 @@
 # it from an isolated worktree of /verif (/root/wt/seedcheck), and records the outcome in /verif/seeded/<name>/.
 set -u
 SRC="$1"; PID="$2"; NAME="$3"
-V=/verif; SC=/root/wt/seedcheck; WT=/tmp/vs_$NAME
+V=/verif; SC=${SEEDCHECK:-/root/wt/seedcheck}; WT=/tmp/vs_$NAME
 PY=/venv/bin/python
 SUITE="-m pytest -q -p no:cacheprovider --timeout=900 --continue-on-collection-errors"
-if [ ! -d $SC ]; then git -C $V worktree add -q $SC -b wt-seedcheck; fi
+if [ ! -d $SC ]; then git -C $V worktree add -q $SC -b wt-$(basename $SC); fi
+if [ ! -d $SC/lean/.lake ] && [ -d $V/lean/.lake ]; then cp -r $V/lean/.lake $SC/lean/.lake; fi
 git -C $SC merge --abort >/dev/null 2>&1; git -C $SC reset -q --hard main; git -C $SC clean -qfd -e lean/.lake
 (cd $SC && ./setup.sh >/dev/null 2>&1)
 git -C /repo worktree add -q $WT HEAD || exit 2
@@ -32,18 +33,29 @@ print((v.get('what') or ('; '.join(d.get('broken_obligations',[])[:2]) + ' | ' +
 (cd $SC && git checkout -q -- lean/DateutilVerif/Generated 2>/dev/null)
 git -C /repo worktree remove --force $WT
 mkdir -p $V/seeded/$NAME
-cp $SRC/patch.diff $SRC/demo.py $V/seeded/$NAME/
+[ "$(readlink -f $SRC)" = "$(readlink -f $V/seeded/$NAME)" ] || cp $SRC/patch.diff $SRC/demo.py $V/seeded/$NAME/
 python3 - "$SRC/meta.json" "$V/seeded/$NAME/meta.json" "$PID" "$SUITE_SAME" "$DEMO0" "$DEMO1" "$RC" "$VLINE" "$WHAT" <<'PYEOF'
 import json, sys
 src, dst, pid, same, d0, d1, rc, vline, what = sys.argv[1:10]
 try: m = json.load(open(src))
 except Exception: m = {}
+import os
+prev = None
+if os.path.exists(dst):
+    try: prev = json.load(open(dst))
+    except Exception: prev = None
 out = {"property": pid, "summary": m.get("summary"), "needs": m.get("needs"),
        "confirmed": {"suite_same_pass_fail_set_as_baseline": same == "true", "demo_exit_unmodified": int(d0), "demo_exit_modified": int(d1)},
        "what_i_ran": ["scratch worktree of /repo HEAD + git apply patch.diff", "baseline suite command with PYTHONPATH=<scratch>/src: failing-test-id set compared with the unmodified tree",
                       "demo.py against both trees", "DATEUTIL_REPO=<scratch> ./check %s --tier quick from an isolated worktree of /verif" % pid],
        "check": {"exit": int(rc), "violation_line": vline, "first_failure": what,
                  "caught": int(rc) == 1, "with_failing_input": int(rc) == 1 and "no-failing-input-found" not in vline}}
+# keep the history: a seed missed (or caught only as no-failing-input-found) by an earlier version of the check stays recorded
+hist = (prev or {}).get("earlier_runs", [])
+if prev and prev.get("check") and (prev["check"].get("caught") != out["check"]["caught"] or prev["check"].get("with_failing_input") != out["check"]["with_failing_input"]):
+    hist = hist + [{"caught": prev["check"].get("caught"), "with_failing_input": prev["check"].get("with_failing_input"), "violation_line": prev["check"].get("violation_line")}]
+if hist:
+    out["earlier_runs"] = hist
 json.dump(out, open(dst, "w"), indent=1)
 print(json.dumps(out["confirmed"]), json.dumps(out["check"])[:600])
 PYEOF
